@@ -553,24 +553,52 @@ impl Node {
             }
         }
 
+        //the remaining ids are not stored locally.
+        //a version that is not newer than a version deleted locally is not requested again: the peer has just not seen the deletion yet
+        let mut deleted_stmt =
+            conn.prepare_cached("SELECT max(mdate) FROM _node_deletion_log WHERE id = ?")?;
         for node_id in node_ids.drain() {
-            let node_to_insert = NodeToInsert {
-                id: node_id.id,
-                node: None,
-                entity_name: None,
-                index: false,
-                old_local_id: None,
-                old_room_id: None,
-                old_mdate: 0,
-                old_verifying_key: None,
-                old_fts_str: None,
-                node_fts_str: None,
-            };
+            let deleted_mdate = Self::deleted_version_mdate(&node_id.id, &mut deleted_stmt)?;
+            if !Self::is_deleted_version(deleted_mdate, node_id.mdate) {
+                let node_to_insert = NodeToInsert {
+                    id: node_id.id,
+                    node: None,
+                    entity_name: None,
+                    index: false,
+                    old_local_id: None,
+                    old_room_id: None,
+                    old_mdate: 0,
+                    old_verifying_key: None,
+                    old_fts_str: None,
+                    node_fts_str: None,
+                };
 
-            result.push(node_to_insert);
+                result.push(node_to_insert);
+            }
         }
 
         Ok(result)
+    }
+
+    ///
+    /// modification date of the most recent version of this row that has been deleted locally, if any
+    ///
+    fn deleted_version_mdate(
+        id: &Uid,
+        deleted_stmt: &mut rusqlite::CachedStatement,
+    ) -> Result<Option<i64>> {
+        let deleted_mdate: Option<i64> = deleted_stmt.query_row([id], |row| row.get(0))?;
+        Ok(deleted_mdate)
+    }
+
+    ///
+    /// true if a version modified at mdate is the version that has been deleted, or an older one
+    ///
+    fn is_deleted_version(deleted_mdate: Option<i64>, mdate: i64) -> bool {
+        match deleted_mdate {
+            Some(deleted) => deleted >= mdate,
+            None => false,
+        }
     }
 
     pub fn filtered_by_room(
